@@ -447,7 +447,9 @@ def c19(tier, seed, case=None):
             'for predicates and display names. distinct_nontrivial = codes that are valid, one bit away from a valid code, of '
             'magnitude <= 64 or next to i32::MIN/MAX (counted during the sweep) + the 14 table rows',
             exhaustive=True)
-    v.add_run(run_engine('C19', 'c19', 'release', tier, seed, case=case))
+    import os
+    opts = {'sweep_shift': 8} if os.environ.get('VERIF_COV') else None     # tools/coverage.py only
+    v.add_run(run_engine('C19', 'c19', 'release', tier, seed, opts=opts, case=case))
     if tier == 'thorough' and not case:
         v.add_run(run_engine('C19', 'c19', 'checked', tier, seed, case=case))
     v.extra['exhaustive_scope'] = 'all 2^32 values of the code, for ShapeType::from and Header::read_from'
